@@ -5,7 +5,8 @@ from . import _align_common as ac
 TITLE = "Alignment results do not depend on the MIP back-end"
 DECIDING = ["M-SOLVER", "M-PART", "M-COVER", "M-EQ"]
 LEVEL = "exploration"
-RULE = ("every case = one continuum (small to medium: up to 2x40, 3x12, 4x6, 5x4 units) and one pooled dissimilarity, "
+RULE = ("every case = one continuum (small to medium: up to 2x40, 3x12, 4x6, 5x4 units; plus a block of 2x~180 and 3x~40 dense "
+        "continua with 10 000 - 50 000 candidate unitary alignments) and one pooled dissimilarity, "
         "aligned (best and soft) under three solver configurations: cylp importable (CBC), `import cylp` raising "
         "ImportError (GLPK), CBC raising cvxpy.SolverError (fault injection, GLPK); a spy on cvxpy.Problem.solve "
         "proves which solver ran; non-trivial = >= 2 units and >= 2 non-empty annotators; distinct by SHA-1")
@@ -64,6 +65,16 @@ def run(ctx):
     ac.setup(ctx)
     rng = ctx.rng
     dspecs = cases.gen_pool_specs(rng, ctx.scale(12, 30))
+    # medium continua whose candidate table is large (10 000 - 50 000 unitary alignments): a fallback that answers big
+    # problems with something cheaper than the exact programme shows here and nowhere else
+    big_d = [{"kind": "combined", "alpha": 1.0, "beta": 1.0, "delta": 1.0, "pos": None, "cat": None}, {"kind": "positional", "delta": 1.0}]
+    for i in range(ctx.scale(4, 40)):
+        sizes = [rng.randint(170, 200), rng.randint(120, 160)] if i % 2 == 0 else [rng.randint(40, 48), rng.randint(36, 42), rng.randint(30, 36)]
+        cspec = cases.gen_continuum(rng, n_annot=len(sizes), sizes=sizes, labels=cases.LABELS_SMALL, family="dense")
+        case = {"continuum": cspec, "dissim": big_d[(i // 2) % 2]}
+        ctx.begin_case(case)
+        ctx.observe("family", "large-candidate-table")
+        check_case(ctx, case)
     for _ in range(ctx.scale(150, 3000)):
         if ctx.out_of_time():
             break
